@@ -29,6 +29,8 @@ def c3(ctx):
 
 
 def c4(ctx):
+    from ..rules import serial
+    serial.str_is_serialize(ctx)
     mutate.mutate_order(ctx)
 
 
